@@ -128,6 +128,8 @@ class Folder:
             hit = self.repo.class_const(scope.cls, expr.attr)
             if hit is None:
                 raise Unfoldable(f"self.{expr.attr} is not a class constant")
+            if expr.attr in self._instance_assigned(scope.cls):
+                raise Unfoldable(f"self.{expr.attr} is (re)bound on instances")
             c, e = hit
             return ("val", self.fold(e, _class_body_scope(c)))
         if isinstance(base, ast.Name):
@@ -160,6 +162,34 @@ class Folder:
         if kind == "val" and isinstance(obj, StructVal) and expr.attr == "format":
             return ("val", obj.fmt)
         raise Unfoldable("attribute of value")
+
+    def _instance_assigned(self, cls: Cls):
+        """Attributes written through `self.` in any method of the class hierarchy (they shadow class constants)."""
+        memo = getattr(self, "_ia_memo", None)
+        if memo is None:
+            memo = self._ia_memo = {}
+        key = (cls.mod.name, cls.name)
+        if key in memo:
+            return memo[key]
+        out = set()
+        for c in self.repo.mro(cls):
+            for m in c.methods.values():
+                for n in ast.walk(m.node):
+                    tgts = []
+                    if isinstance(n, ast.Assign):
+                        tgts = n.targets
+                    elif isinstance(n, (ast.AugAssign, ast.AnnAssign)):
+                        tgts = [n.target]
+                    elif isinstance(n, ast.Delete):
+                        tgts = n.targets
+                    for t in tgts:
+                        for e in (t.elts if isinstance(t, (ast.Tuple, ast.List)) else [t]):
+                            while isinstance(e, ast.Subscript):
+                                e = e.value
+                            if isinstance(e, ast.Attribute) and isinstance(e.value, ast.Name) and e.value.id == "self":
+                                out.add(e.attr)
+        memo[key] = out
+        return out
 
     # ------------------------------------------------------------ fold
     def fold(self, expr: ast.expr, scope: Scope) -> Any:
